@@ -86,7 +86,8 @@ func verifC02NewTxScene(ne, home int, conc int) *verifC02TxScene {
 			// all signatures and its share of the message (0), or ends right after the first signature
 			// (1), inside the second signature (2), or right after the last signature (3)
 			sigs := []solana.Signature{sig}
-			for j := 1; j < 1+verifChoice("extraSignatures", verifParam("maxSigs", 2)); j++ {
+			nsig := 1 + verifChoice("extraSignatures", verifParam("maxSigs", 2))
+			for j := 1; j < nsig; j++ {
 				sigs = append(sigs, solana.Signature{0: 0x51, 1: byte(j), 40: verifU8("extraSigByte"), 63: 0x52})
 			}
 			firstFrame := -1
